@@ -236,6 +236,7 @@ func init() {
 		}
 		return l
 	}
+	culpritMemo := map[string][2]string{}
 	mkViol := func(h []int, bad int, got string) *ev.Violation {
 		// key: the op kind that misbehaved + the kinds of ops before it that touch a type
 		// sharing its printed name or structure (kept coarse: the op names without arguments)
@@ -284,7 +285,15 @@ func init() {
 					if len(sub) != size {
 						continue
 					}
-					if b2, g2, _ := runHist(append(append([]int{}, sub...), h[bad])); b2 == size && g2 == got {
+					hs := append(append([]int{}, sub...), h[bad])
+					mk := fmt.Sprint(hs)
+					res, ok := culpritMemo[mk]
+					if !ok {
+						b2, g2, _ := runHist(hs)
+						res = [2]string{fmt.Sprint(b2), g2}
+						culpritMemo[mk] = res
+					}
+					if res[0] == fmt.Sprint(size) && res[1] == got {
 						culprit = "[" + strings.Join(names(sub), ", ") + "]"
 						break search
 					}
@@ -300,7 +309,7 @@ func init() {
 			Expected: clipS(soloOf()[h[bad]], 300) + "   (same op right after a cache reset)", Observed: clipS(got, 300)}
 	}
 	ev.Register(&ev.Check{
-		ID: "C09", Level: "model_checking", Workers: 16, QuickSecs: 150, ThorSecs: 1500,
+		ID: "C09", Level: "model_checking", Workers: 16, QuickSecs: 260, ThorSecs: 1500,
 		Rule: "every history = prefix of <= p arbitrary operations (p=2 quick, 3 thorough) followed by one observing operation, over ~55 op instances (Marshal by value / through a pointer, Unmarshal ok / failing, Pretouch with 4 (MaxInlineDepth,RecursiveDepth) settings, PretouchMany over colliding sets in both orders) " +
 			"on 7 types built to collide (two pairs of distinct types printing identically, a pointer-receiver Marshaler reached by value and by pointer, a recursive type, a 5-deep nest); each history is replayed on the real code from reset program caches; " +
 			"oracle: every operation returns what it returns right after a reset (differential, no hand-written expectation). Component part: the real ProgramCache with fabricated keys: every insertion order of <= 5 keys from a colliding alphabet at the two rehash boundaries, and 9000 sequential insertions, each key must map to its own value. " +
